@@ -1222,7 +1222,8 @@ impl<'c, 'a> Structural<'c, 'a> {
                     let p = &f.pat;
                     let stmts = &body.stmts;
                     self.cx.logr("R6", f.for_token.span, format!("for x in [..{} elements..] -> index loop over a local array", n));
-                    return Some(syn::parse_quote!({
+                    // `if true { .. }` rather than a bare block: Verus' parser takes a block that directly follows a loop body for a clause
+                    return Some(syn::parse_quote!(if true {
                         let __vp_arr = #arr;
                         #label for __vp_k in 0..#n { #marker let #p = __vp_arr[__vp_k]; #(#stmts)* }
                     }));
